@@ -628,8 +628,9 @@ class BitStream(ConstBitStream, bitstring.BitArray):
             pos += len(self)
         if pos < 0 or pos > len(self):
             raise ValueError("Overwrite starts outside boundary of bitstring.")
+        length = len(bs)  # bs could be self, so get the length before it can change
         self._overwrite(bs, pos)
-        self._pos = pos + len(bs)
+        self._pos = pos + length
 
     def __setattr__(self, attribute, value) -> None:
         if attribute.startswith('_'):
